@@ -70,6 +70,9 @@ func (ctx *CustomizePubSessionContext) StreamName() string {
 func (ctx *CustomizePubSessionContext) Dispose() {
 	nazalog.Infof("[%s] CustomizePubSessionContext::Dispose.", ctx.uniqueKey)
 	ctx.disposeFlag.Store(true)
+	if ctx.dumpFile != nil {
+		_ = ctx.dumpFile.Close()
+	}
 }
 
 // -----implement of base.IAvPacketStream ------------------------------------------------------------------------------
